@@ -83,6 +83,7 @@ type Interp struct {
 	ownInit   bool
 	raceOn    bool
 	shadows   map[*Value]*shadow
+	mapCells  map[*MapV]*Value // one race-tracking location per map
 	pools     map[*Value][]Value
 	syncMaps  map[*Value]*MapV
 	atomVals  map[*Value]*Value
@@ -509,6 +510,7 @@ func (in *Interp) visitInstr(fr *frame, instr ssa.Instruction) continuation {
 		if m == nil {
 			in.rtPanic("assignment to entry in nil map")
 		}
+		in.raceMapAccess(m, true)
 		if in.frozenMap != nil {
 			if lbl, ok := in.frozenMap[m]; ok {
 				in.frozenWrite("map update", lbl)
@@ -772,6 +774,7 @@ func (in *Interp) lookup(instr *ssa.Lookup, x, idx Value) Value {
 		b := strBytes(x)
 		return in.indexRead(b, idx)
 	case *MapV:
+		in.raceMapAccess(x, false)
 		v, ok := in.mapGet(x, idx)
 		if !ok {
 			v = zero(instr.X.Type().Underlying().(*types.Map).Elem())
@@ -934,6 +937,7 @@ func (in *Interp) rangeIter(x Value, t types.Type, instr *ssa.Range) iter {
 	case *MapV:
 		it := &mapIter{m: x}
 		if x != nil {
+			in.raceMapAccess(x, false)
 			for i := range x.Keys {
 				if !x.Dead[i] {
 					it.keys = append(it.keys, i)
@@ -1308,6 +1312,7 @@ func (in *Interp) callBuiltin(caller *frame, fn *ssa.Builtin, args []Value) Valu
 		return nil
 	case "delete":
 		if m := args[0].(*MapV); m != nil {
+			in.raceMapAccess(m, true)
 			if in.frozenMap != nil {
 				if lbl, ok := in.frozenMap[m]; ok {
 					in.frozenWrite("map delete", lbl)
